@@ -15,6 +15,7 @@ import SparseSpace.Drive.Util
     valid <pos>                         → 1 | 0   `localValid` of the grids computed in that pass
     assign <x1,x2,..>                   → s..|e.. of the leaf | none
     scheme                              → l..:coeff;...  (code order)
+    flex <lmax> <coarsening>            → <coarseningValue carried> <lmax of the scheme used>   (`flexEval`)
     wf                                  → 1 | 0   executable state invariant
     pass <version> <dim> <lmin> <lmax> <c> <l..;l..;...>
                                         → `coarsen_grid` on a fresh area of coarsening c for the given level vectors in
@@ -161,6 +162,10 @@ def step (s : Option EState) (line : String) : Option EState × String :=
         | some (coarse, doC, dict') => (acc.1 ++ [fmtI coarse ++ "|" ++ (if doC then "1" else "0")], dict')) ([], [])
       (s, ";".intercalate r.1)
     | _, _, _, _, _, _ => (s, "bad-op")
+  | ["flex", lmax, c] =>
+    match parseInt? lmax, parseInt? c with
+    | some lmax, some c => (s, s!"{(flexEval lmax c).1} {(flexEval lmax c).2}")
+    | _, _ => (s, "bad-op")
   | ["wf"] =>
     match s with
     | some st =>
